@@ -244,6 +244,7 @@ func c01Check(res *fw.Result, f *pbfw.File, procs int, chunk int, key string) {
 	}
 	sr := pbfScanCtx(ctx, rd, procs, true, nil, nil)
 	res.Event(int64(len(sr.Objs)) + 1)
+	scanAgain(res, sr, key)
 	if sr.HdrErr != nil {
 		res.Violatef(key+"/header-err", "Header() failed on a valid file: %v", sr.HdrErr)
 		return
